@@ -35,7 +35,7 @@ ASSUMPTIONS = [
 
 
 def _kinds(case):
-    """which excluded situations (Model/AggLock.lean `excludedLock`) a case seems to contain — only used to group failing
+    """which re-request situations (Model/AggLock.lean `relockFallsThrough`: the two former leaks) a case seems to contain — only used to group failing
     cases so that many hits of one defect cannot hide another"""
     k = set()
     for o in case:
